@@ -118,6 +118,15 @@ def job(arg):
     return {"kind": kind, "a": a, "b": b, "ret": ret, "events": events, "n_iter": len(evs)}
 
 
+def lone_call(arg):
+    kind, a, b = arg
+    cdp = R.load_mechanism("cdp2adp")
+    try:
+        return {"rho": cdp.cdp_rho, "eps": cdp.cdp_eps, "delta": cdp.cdp_delta}[kind](a, b)
+    except Exception as ex:
+        return repr(ex)
+
+
 def run(ctx, canary=False):
     rng = random.Random(ctx.seed)
     thorough = ctx.tier == "thorough"
@@ -171,6 +180,24 @@ def run(ctx, canary=False):
                 inv.append(("rho", res["ret"], res["b"]))
         inv_results = pool.map(job, inv, chunksize=4)
     cdp = R.load_mechanism("cdp2adp")
+    # The conversions are functions of their arguments: a call made after other calls in the same process (arguments that differ
+    # only far below any display precision) returns bit for bit what a lone call in a fresh process returns.
+    seqs = [[("rho", e_, d_) for d_ in (1e-13, 1e-15, 3e-13, 1e-14)] for e_ in (1e-3, 1.0)]
+    seqs += [[("eps", r_, d_) for d_ in (1e-13, 1e-15, 2e-13)] for r_ in (1e-4, 3.0)]
+    seqs += [[("delta", 1.0 + k_ * 1e-13, 2.0) for k_ in range(3)], [("delta", 0.5, 1.0 + k_ * 1e-13) for k_ in range(3)]]
+    flat = [c_ for sq in seqs for c_ in sq]
+    with multiprocessing.get_context("fork").Pool(len(flat), maxtasksperchild=1) as pool:
+        lone = pool.map(lone_call, flat, chunksize=1)
+    fn = {"rho": cdp.cdp_rho, "eps": cdp.cdp_eps, "delta": cdp.cdp_delta}
+    for (kind_, a_, b_), alone in zip(flat, lone):
+        ctx.case(json.dumps(["history", kind_, a_, b_]), nontrivial=True)
+        try:
+            here = fn[kind_](a_, b_)
+        except Exception as ex:
+            here = repr(ex)
+        if here != alone:
+            ctx.violation("cdp_%s(%r, %r) returns %r after other calls in the same process, %r as the first call of a fresh process" % (kind_, a_, b_, here, alone),
+                          {"call": [kind_, a_, b_], "calls_before": [list(c_) for c_ in flat[:flat.index((kind_, a_, b_))]]}, {"kind": "history"})
     traces = []
     inv_by = {(r_["kind"], r_["a"], r_["b"]): r_ for r_ in inv_results if "kind" in r_}
     for res in results:
